@@ -224,7 +224,7 @@ def is_full_index_range(it, array):
     return txt in ('len(%s)' % array, '%s.shape[0]' % array, '%s.size(0)' % array, '%s.__len__()' % array)
 
 
-def inlined(f, node, depth=4, ctx=None):
+def inlined(f, node, depth=4, ctx=None, skip=()):
     """Copy of an expression in which every local with a single definition is replaced by that definition (recursively,
     depth-limited): the expression in terms of parameters, fields, loop variables and multiply-defined locals only.  For
     comparisons that must not depend on whether a sub-expression was given a name.  With `ctx` (the flow context of the
@@ -245,7 +245,7 @@ def inlined(f, node, depth=4, ctx=None):
         return None
 
     def rec(n, d):
-        if isinstance(n, ast.Name) and isinstance(n.ctx, ast.Load) and n.id not in f.params and d > 0:
+        if isinstance(n, ast.Name) and isinstance(n.ctx, ast.Load) and n.id not in f.params and n.id not in skip and d > 0:
             v = single_def(f, n.id)
             if v is None:
                 v = block_def(n.id)
@@ -261,6 +261,6 @@ def inlined(f, node, depth=4, ctx=None):
     return rec(copy.deepcopy(node), depth)
 
 
-def itext(f, node):
+def itext(f, node, skip=()):
     """Normalised text (no blanks) of inlined(f, node)."""
-    return norm(inlined(f, node)).replace(' ', '')
+    return norm(inlined(f, node, skip=skip)).replace(' ', '')
